@@ -1141,13 +1141,27 @@ def logger_translated_vs_python(run: lib.Run, defaults: list) -> tuple[bool, str
     lines: list[str] = []
     index: list[tuple[int, str]] = []
     seen_init: set[str] = set()
+    harness_errors = 0
     for c in logger_translated_jobs(run, defaults):
         try:
-            real_out = real_logger_run(c)
             init = _init_line(c["cfg"])
             payload = proto.enc(c["payload"])
         except TypeError:
             continue                      # a value outside the codec (not generated on purpose)
+        try:
+            real_out = real_logger_run(c)
+            json.dumps([proto.enc(v) for v in real_out["sizes"]] + [proto.enc(x) for k in ("args", "arg", "returned")
+                                                                     for x in [real_out.get("apply", {}).get(k)] if x is not None])
+        except Exception as e:  # noqa: BLE001
+            # the constructor / the sampling method raised, or produced something outside the codec: the translation says neither happens
+            harness_errors += 1
+            run.count("translated-logger: the real DecisionLogger could not be run on the case")
+            if harness_errors == 1:
+                run.disagreements.append({"part": "translated logger vs python", "function": "run", "case": {k: v for k, v in c.items() if k != "py_covered"},
+                                          "impl": {"raised": f"{type(e).__name__}: {e}"[:300]}, "model": None,
+                                          "what": "the real DecisionLogger raised outside log() (constructor / _should_drop_by_sampling) or handed "
+                                                  "apply_obligations a value outside the JSON domain; the translated one does not"})
+            continue
         j = len(jobs)
         jobs.append((c, real_out))
         key = json.dumps(init, sort_keys=True)
@@ -1204,7 +1218,10 @@ def logger_translated_vs_python(run: lib.Run, defaults: list) -> tuple[bool, str
                        else "apply_obligations raised: env as is" if ap and ap.get("raised")
                        else "size oracle raised: redacted env kept" if c["cfg"].get("max_env_bytes") not in (None, 0) and jsize(env) is None
                        else "redacted" if ap else "no redaction")
-                same = "emitted" in got and json.dumps(got["emitted"], separators=(",", ":")) == proto.canon(real_out["emitted"])
+                try:
+                    same = "emitted" in got and json.dumps(got["emitted"], separators=(",", ":")) == proto.canon(real_out["emitted"])
+                except TypeError:
+                    same = False          # the real record holds a value outside the JSON domain
             run.count(f"translated-logger: {what} " + cls)
         if not same:
             bad += 1
@@ -1216,6 +1233,8 @@ def logger_translated_vs_python(run: lib.Run, defaults: list) -> tuple[bool, str
     if n_raised:
         run.count("translated-logger: the real log raised (rendering of an unserialisable record as JSON: the emit effect; not judged)", n_raised)
     run.evaluations += len(lines)
+    if harness_errors:
+        return False, f"the real DecisionLogger could not be run on {harness_errors} cases; {bad} of {len(lines)} evaluations differ"
     return bad == 0, f"{bad} of {len(lines)} evaluations differ" if bad else f"agree on {len(lines)} evaluations ({len(jobs)} cases)"
 
 
